@@ -9,6 +9,7 @@ package main
 import (
 	"bufio"
 	"bytes"
+	"crypto/sha1"
 	"encoding/binary"
 	"encoding/json"
 	"fmt"
@@ -211,6 +212,9 @@ type itemOut struct {
 	Index    int  `json:"index"`
 	ReqSize  int  `json:"reqsize"`
 	RespSize int  `json:"respsize"`
+	// what the pair reports about its two messages (payloads as JSON), so that a schedule in which a message is
+	// handed over before it is complete shows
+	Digest string `json:"digest"`
 }
 
 type residueOut struct {
@@ -308,6 +312,11 @@ func (w *world) collect() result {
 		case it := <-w.out:
 			o := itemOut{Req: pidOf(it.Pair.Request.Payload), Resp: pidOf(it.Pair.Response.Payload), Conn: -1, Index: int(it.Index),
 				ReqSize: it.Pair.Request.CaptureSize, RespSize: it.Pair.Response.CaptureSize}
+			if rq, err := json.Marshal(it.Pair.Request.Payload); err == nil {
+				if rs, err := json.Marshal(it.Pair.Response.Payload); err == nil {
+					o.Digest = fmt.Sprintf("%x", sha1.Sum(append(append(rq, 0), rs...)))
+				}
+			}
 			for _, c := range w.connList {
 				cs := w.conns[c]
 				if it.ConnectionInfo != nil && it.ConnectionInfo.ClientIP == cs.cid.SrcIP && it.ConnectionInfo.ClientPort == cs.cid.SrcPort {
@@ -541,6 +550,10 @@ func runSeq(proto string, conns []int, script func(deliver func(s side, data []b
 // conc <proto> <maxRuns> <conn>:<c|s>:<pid,pid,...> ...   every schedule of the yield points
 func concMode(args []string) {
 	proto := args[0]
+	// "<proto>+rd": every message arrives in two segments and every Read of a half is a scheduling point (the other
+	// half can run while a message is only partly there)
+	readYields := strings.HasSuffix(proto, "+rd")
+	proto = strings.TrimSuffix(proto, "+rd")
 	maxRuns, _ := strconv.Atoi(args[1])
 	var onePrefix []string
 	single := false
@@ -603,7 +616,18 @@ func concMode(args []string) {
 					r.Chunks = append(r.Chunks, sb)
 				}
 				for j, p := range t.pids {
-					r.Chunks = append(r.Chunks, encode(proto, t.s.isClient, p, 2*j+1, es))
+					m := encode(proto, t.s.isClient, p, 2*j+1, es)
+					if readYields && len(m) > 12 {
+						// the last bytes of the message come in a segment of their own: everything in front of them
+						// (framing, header, most of the body) is there when the reader has to wait
+						cut := len(m) - 2
+						r.Chunks = append(r.Chunks, m[:cut], m[cut:])
+					} else {
+						r.Chunks = append(r.Chunks, m)
+					}
+				}
+				if readYields {
+					r.OnRead = func() { api.VerifYieldPoint("reader.read") }
 				}
 				e := "eof"
 				func() {
